@@ -433,7 +433,7 @@ def rule_mode_ladders(chk, prog):
 
 
 # ----------------------------------------------------------------------------
-def analyse(chk):
+def _analyse_own(chk):
     tree = chk.tree
     prog = pf.Program(tree, [XE, XE2, BL, "ciderpress/dft/settings.py"])
     chk.rule("ret-arity", "every BASELINE_CODES function returns a (value, derivative) 2-tuple on every path")
@@ -466,6 +466,12 @@ def analyse(chk):
         "numeric coefficients of the native baselines' derivatives (the degree rule sees exponents, not factors)",
         "what libxc returns for the libxc-backed baselines",
     ]
+
+
+def analyse(chk):
+    _analyse_own(chk)
+    chk.guard(lambda c_: core.include_findings(c_, 'C10', files=['ciderpress/lib/mod_cider/model_utils.c'], rules=None,
+                                               why='a data race in the native kernel evaluators corrupts res/dres'))
 
 
 def mutants(tree):
